@@ -42,6 +42,29 @@ def load_variants(props=None):
         if not meta.get("checks", {}).get("caught_by_own_property", True):
             continue        # a recorded miss (outside the reach of this family): listed in seeded/MATRIX.md, not asserted
         out.append(dict(id="seeded:" + d, prop=meta["property"], kind="break", patch=os.path.join(sd, d, "patch.diff")))
+    # behaviour-preserving refactorings written by independent sub-agents (twins/<id>/patch.diff, each with the author's equivalence
+    # program that was run once when the twin was kept): the checks must stay silent.  Pairs (twin, property) = the twin's own property
+    # and every property whose check said anything about it when it was first evaluated.  `inconclusive_ok` lists the pairs where the
+    # honest answer is exit 2 (the algorithm was redesigned beyond what the rule knows; see DESIGN.md 9.9).
+    td = os.path.join(VERIF, "twins")
+    known_inconclusive = {("C12-t1-3", "C12")}
+    for d in sorted(os.listdir(td)) if os.path.isdir(td) else []:
+        pf = os.path.join(td, d, "patch.diff")
+        if not os.path.exists(pf):
+            continue
+        own = d.split("-")[0]
+        also = set()
+        fe = os.path.join(td, d, "first_eval.json")
+        if os.path.exists(fe):
+            try:
+                with open(fe, encoding="utf-8") as f:
+                    also = set(json.load(f).get("checks", {}))
+            except ValueError:
+                pass
+        for p in sorted({own} | also):
+            if props and p not in props:
+                continue
+            out.append(dict(id="twin:" + d, prop=p, kind="twin", patch=pf, inconclusive_ok=(d, p) in known_inconclusive))
     return out
 
 
@@ -101,7 +124,7 @@ def run_one(v):
             if ok and v.get("names"):
                 ok = any(l.startswith("REFUTED") and v["names"] in l for l in out.splitlines())
             return v, "CAUGHT" if ok else ("MISSED(exit=%d)" % r.returncode), "", out
-        ok = r.returncode == 0 and "VIOLATION" not in out
+        ok = (r.returncode == 0 or (v.get("inconclusive_ok") and r.returncode == 2)) and "VIOLATION" not in out
         return v, "SILENT" if ok else ("FALSE-ALARM(exit=%d)" % r.returncode), "", out
     finally:
         shutil.rmtree(tmp, ignore_errors=True)
